@@ -41,20 +41,67 @@ fn ask_model(ctx: &mut CaseCtx, schema_text: &str, query_text: &str) -> Option<M
     })
 }
 
+/// fixed (schema, document) pairs that run first: shapes a random draw may not contain on a given seed — two abstract
+/// types without a common possible type (interface / interface, interface / union), selections on all three kinds of
+/// parent at depth 1 and inside a fragment
+fn fixed_pairs() -> Vec<(ASchema, ADoc)> {
+    let f = |n: &str, t: ATy| AField { name: n.into(), ty: t, dep: None };
+    let obj = |name: &str, implements: Vec<&str>, fields: Vec<AField>| AType::Object { name: name.into(), implements: implements.into_iter().map(String::from).collect(), fields, ext_fields: vec![] };
+    let fld = |n: &str, sub: Vec<ASel>| ASel::Field { alias: None, name: n.into(), sub };
+    let schema = ASchema {
+        types: vec![
+            AType::Interface { name: "Named".into(), fields: vec![f("name", ATy::named("String"))] },
+            AType::Interface { name: "Tagged".into(), fields: vec![f("tag", ATy::named("String"))] },
+            obj("Person", vec!["Named"], vec![f("name", ATy::named("String")), f("friend", ATy::named("Named"))]),
+            obj("Item", vec!["Tagged"], vec![f("tag", ATy::named("String"))]),
+            obj("Gadget", vec![], vec![f("serial", ATy::named("Int"))]),
+            AType::Union { name: "Thing".into(), members: vec!["Item".into(), "Gadget".into()] },
+            obj("Query", vec![], vec![f("named", ATy::named("Named")), f("tagged", ATy::named("Tagged")), f("thing", ATy::named("Thing")), f("person", ATy::named("Person"))]),
+        ],
+        query: Some("Query".into()),
+        mutation: None,
+        subscription: None,
+    };
+    let doc = ADoc {
+        ops: vec![AOp {
+            kind: "query",
+            name: "Fixed".into(),
+            vars: vec![],
+            sels: vec![
+                fld("named", vec![ASel::Typename, fld("name", vec![]), ASel::Inline { on: "Person".into(), sub: vec![fld("friend", vec![ASel::Typename, fld("name", vec![])])] }, ASel::Spread { name: "OnNamed".into() }]),
+                fld("tagged", vec![ASel::Typename, fld("tag", vec![])]),
+                fld("thing", vec![ASel::Typename, ASel::Inline { on: "Item".into(), sub: vec![fld("tag", vec![])] }]),
+                fld("person", vec![fld("name", vec![])]),
+            ],
+        }],
+        frags: vec![AFrag { name: "OnNamed".into(), on: "Named".into(), sels: vec![ASel::Typename, fld("name", vec![])] }],
+    };
+    vec![(schema, doc)]
+}
+
 pub fn run(a: &Args) -> i32 {
     let mut rep = Report::new(
         "C06",
         a,
-        "random valid (schema, document) pairs (type-directed generator: objects, interfaces, unions, fragments incl. nested/recursive, inline fragments, aliases) x 15 invalidating edits (rule catalogue of the property) x every applicable selection-set position (operation / fragment, object / interface / union parent, nesting depth, under inline fragments); a case = one edited document run through generate_module_token_stream_from_string; non-trivial = the edit was applied below the root selection set or inside a fragment; distinct by (schema, edited document text)",
+        "random valid (schema, document) pairs (type-directed generator: objects, interfaces, unions, fragments incl. nested/recursive, inline fragments, aliases) x 22 invalidating edits (rule catalogue of the property) x every applicable selection-set position (operation / fragment, object / interface / union parent, nesting depth, under inline fragments); a case = one edited document run through generate_module_token_stream_from_string; non-trivial = the edit was applied below the root selection set or inside a fragment; distinct by (schema, edited document text)",
     );
     let mut rng = Rng::new(a.seed);
     let mut ctx = CaseCtx::new();
     let n_docs = if rep.thorough() { 1500 } else { 70 };
     let per_edit_positions = if rep.thorough() { usize::MAX } else { 3 };
     let opts = Opts::harness();
-    for _ in 0..n_docs {
-        let schema = random_schema(&mut rng, &SchemaKnobs::default());
-        let doc = random_doc(&mut rng, &schema, &OpKnobs::default());
+    let mut fixed = fixed_pairs().into_iter();
+    for _ in 0..n_docs + fixed_pairs().len() {
+        let mut is_fixed = true;
+        let (schema, doc) = match fixed.next() {
+            Some(x) => x,
+            None => {
+                is_fixed = false;
+                let schema = random_schema(&mut rng, &SchemaKnobs::default());
+                let doc = random_doc(&mut rng, &schema, &OpKnobs::default());
+                (schema, doc)
+            }
+        };
         let sdl = schema.to_sdl(&RenderKnobs::default());
         let qtext = doc.render();
         // baseline
@@ -85,7 +132,7 @@ pub fn run(a: &Args) -> i32 {
             };
             let mut applied = 0;
             for (pos, op_idx) in targets {
-                if applied >= per_edit_positions {
+                if !is_fixed && applied >= per_edit_positions {
                     break;
                 }
                 let pick = rng.below(1000);
